@@ -2,6 +2,8 @@ package streamwriter
 
 import (
 	"bytes"
+	"errors"
+	"io"
 )
 
 type size interface {
@@ -37,7 +39,7 @@ func (w *writer[SizeT, Req, Resp]) Write(p []byte) (int, error) {
 		_, _ = w.buf.Read(buf)
 		err := w.stream.Send(w.req(buf))
 		if err != nil {
-			return 0, err
+			return 0, w.sendErr(err)
 		}
 	}
 
@@ -49,7 +51,7 @@ func (w *writer[SizeT, Req, Resp]) Close() error {
 	if len(data) > 0 {
 		err := w.stream.Send(w.req(w.buf.Bytes()))
 		if err != nil {
-			return err
+			return w.sendErr(err)
 		}
 	}
 
@@ -59,4 +61,19 @@ func (w *writer[SizeT, Req, Resp]) Close() error {
 	}
 
 	return nil
+}
+
+// sendErr turns the io.EOF that Send reports once the other side has already ended the stream
+// into the status the other side ended it with.
+func (w *writer[SizeT, Req, Resp]) sendErr(err error) error {
+	if !errors.Is(err, io.EOF) {
+		return err
+	}
+
+	_, recvErr := w.stream.CloseAndRecv()
+	if recvErr != nil {
+		return recvErr
+	}
+
+	return err
 }
